@@ -26,9 +26,10 @@ type thread struct {
 
 // Point is one scheduling decision of an execution.
 type Point struct {
-	Enabled        []int // thread ids in canonical order
+	Enabled        []int // thread ids in canonical order (for a data choice: -1, -2, ... one per alternative)
 	Chosen         int   // index into Enabled
 	RunningEnabled bool  // Enabled[0] is the thread that was running (switching away is a preemption)
+	Data           bool  // not a thread switch but a choice the language leaves open (which ready select case fires)
 }
 
 // Exec is the record of one complete execution.
@@ -125,6 +126,33 @@ func (sc *sched) decide() {
 	if me != nil && !me.done {
 		<-me.wake
 	}
+}
+
+// choose is a data-nondeterminism point with n alternatives (e.g. which of several ready select cases
+// fires): recorded like a scheduling decision, so the explorer enumerates every alternative. It never
+// counts as a preemption.
+func choose(n int) int {
+	if !Active() || n <= 1 {
+		return 0
+	}
+	sc := s
+	k := len(sc.exec.Points)
+	choice := 0
+	if k < len(sc.prefix) {
+		choice = sc.prefix[k]
+		if choice >= n {
+			sc.exec.Diverged = fmt.Sprintf("choice %d of data decision %d is out of range (%d alternatives)", choice, k, n)
+			sc.active = false
+			close(sc.finish)
+			select {}
+		}
+	}
+	ids := make([]int, n)
+	for i := range ids {
+		ids[i] = -1 - i
+	}
+	sc.exec.Points = append(sc.exec.Points, Point{Enabled: ids, Chosen: choice, Data: true})
+	return choice
 }
 
 // point is a scheduling point of the running thread.
